@@ -100,7 +100,7 @@ func (p c20) RunRace(c *core.Ctx) {
 	}
 	r.Go()
 	c.Count("race_starts", 1)
-	if r.Outcome() == "panic" || r.Outcome() == "diverged" {
+	if abnormal(r.Outcome()) {
 		c.Fail("", "race workload: "+r.OutcomeDetail(), failDetail(sc, r, nil))
 		return
 	}
